@@ -226,7 +226,6 @@ func byteTerm(v Value) *Term {
 	panic(fmt.Sprintf("byteTerm of %T", v))
 }
 
-
 // concString renders a value as a concrete string under a model (for observations/messages).
 func concString(v Value, m map[string]uint64, memo map[*Term]uint64) string {
 	switch v := v.(type) {
